@@ -181,6 +181,11 @@ type HCase struct {
 	// loop mode, with a held cursor-position query in the plan: injected (followed by the hold
 	// marker key) while the query's Write has not returned yet; Bytes follow after the release
 	Held []byte `json:"held,omitempty"`
+	// loop mode: earlier traffic.  Injected (followed by the hold marker key, whose delivery is
+	// waited for) BEFORE the application actions of the plan start: what the terminal sent while
+	// no call was in progress (unsolicited / late / repeated replies, keys); whatever state it
+	// leaves behind is what the calls of the plan then meet
+	Pre   []byte   `json:"pre,omitempty"`
 	Show  string   `json:"show"`
 	Plan  []Step   `json:"plan"` // direct mode: the steps; loop mode: app actions only (query first)
 	Tags  []string `json:"tags"`
@@ -198,11 +203,18 @@ func (hc HCase) held() bool {
 
 // allBytes is everything a loop-mode case sends, in order (two chunks when a Write is held)
 func (hc HCase) allBytes() []byte {
-	if !hc.Loop || !hc.held() {
+	if !hc.Loop || (!hc.held() && len(hc.Pre) == 0) {
 		return hc.Bytes
 	}
-	b := append([]byte(nil), hc.Held...)
-	b = append(b, holdMarkerBytes...)
+	var b []byte
+	if len(hc.Pre) > 0 {
+		b = append(b, hc.Pre...)
+		b = append(b, holdMarkerBytes...)
+	}
+	if hc.held() {
+		b = append(b, hc.Held...)
+		b = append(b, holdMarkerBytes...)
+	}
 	return append(b, hc.Bytes...)
 }
 
@@ -212,7 +224,9 @@ type HResult struct {
 	Steps    []Step   `json:"steps"`
 	Events   []Ev     `json:"events"`
 	Cursors  [][2]int `json:"cursors"`
-	Clips    []string `json:"clips"`
+	// what the callers of ClipboardPop received: raw bytes (a clipboard text need not be valid
+	// UTF-8, and loop-mode results travel through JSON)
+	Clips    [][]byte `json:"clips"`
 	Init     Snap     `json:"init"`
 	Final    *Snap    `json:"final"`
 	CapsTerm string   `json:"capsterm"`
@@ -351,7 +365,15 @@ func (w *waiters) start(app string, hold bool, res *HResult) {
 		if !hold {
 			w.release(res)
 		}
+	case "AClipLeave":
+		if w.clip {
+			w.leaveClip(res)
+		}
 	case "AClipWait":
+		if w.clip {
+			// one call at a time: the previous one returns first
+			w.leaveClip(res)
+		}
 		res.Steps = append(res.Steps, Step{App: app})
 		w.clipCh = make(chan *string, 1)
 		w.clip = true
@@ -388,29 +410,62 @@ func (w *waiters) finish(res *HResult) {
 		}
 	}
 	if w.clip {
-		select {
-		case s := <-w.clipCh:
-			if s != nil {
-				res.Clips = append(res.Clips, *s)
-			}
-		case <-time.After(2 * time.Millisecond):
-			w.cancel()
-			if s := <-w.clipCh; s != nil {
-				res.Clips = append(res.Clips, *s)
-			}
-		}
-		w.cancel()
+		w.leaveClip(res)
 	}
+}
+
+// leaveClip: the call to ClipboardPop in progress returns: with the answer it has received, or
+// because its context is cancelled now (AClipLeave)
+func (w *waiters) leaveClip(res *HResult) {
+	select {
+	case s := <-w.clipCh:
+		if s != nil {
+			res.Clips = append(res.Clips, []byte(*s))
+		}
+	case <-time.After(2 * time.Millisecond):
+		w.cancel()
+		if s := <-w.clipCh; s != nil {
+			res.Clips = append(res.Clips, []byte(*s))
+		}
+	}
+	w.cancel()
+	w.clip = false
+	res.Steps = append(res.Steps, Step{App: "AClipLeave"})
 }
 
 func runCase(hc HCase) HResult {
 	in := newInst(hx.ProfileFromMask(hc.Mask, 24, 80), hc.QSize)
-	res := HResult{Init: snapOf(in.vx), Events: []Ev{}, Cursors: [][2]int{}, Clips: []string{}}
+	res := HResult{Init: snapOf(in.vx), Events: []Ev{}, Cursors: [][2]int{}, Clips: [][]byte{}}
 	res.CapsTerm, res.CapsOn = capsTerm(in.vx)
 	res.QFree = res.Init.QCap - res.Init.QLen
 	w := &waiters{in: in}
 	clean := true
 	if hc.Loop {
+		if len(hc.Pre) > 0 {
+			pre := append(append([]byte(nil), hc.Pre...), holdMarkerBytes...)
+			for _, it := range parseItems(pre) {
+				it := it
+				res.Steps = append(res.Steps, Step{It: &it})
+			}
+			in.fc.Inject(pre)
+			deadline := time.After(1500 * time.Millisecond)
+		pre:
+			for {
+				select {
+				case ev := <-in.vx.Events():
+					e := fromEvent(ev)
+					res.Events = append(res.Events, e)
+					if isHoldMarker(e) {
+						break pre
+					}
+				case <-deadline:
+					res.Code = 2
+					res.Msg = "marker key after the earlier traffic not delivered within 1.5 s"
+					in.close(false)
+					return res
+				}
+			}
+		}
 		for _, s := range hc.Plan {
 			w.start(s.App, s.Hold > 0, &res)
 		}
@@ -514,13 +569,11 @@ func runCase(hc HCase) HResult {
 	if res.Code == 0 {
 		// the waiting callers return (answer, 50 ms time-out, or cancellation)
 		for _, s := range hc.Plan {
-			switch s.App {
-			case "ACursorQuery":
+			if s.App == "ACursorQuery" {
 				res.Steps = append(res.Steps, Step{App: "ACursorGiveUp"})
-			case "AClipWait":
-				res.Steps = append(res.Steps, Step{App: "AClipLeave"})
 			}
 		}
+		// a call to ClipboardPop still in progress returns (step AClipLeave)
 		w.finish(&res)
 		f := snapOf(in.vx)
 		res.Final = &f
@@ -595,7 +648,7 @@ func (res HResult) term(hc HCase) string {
 	}
 	clips := make([]string, len(res.Clips))
 	for i, c := range res.Clips {
-		clips[i] = hx.Bytes([]byte(c))
+		clips[i] = hx.Bytes(c)
 	}
 	fin := hx.None
 	if res.Final != nil {
